@@ -240,6 +240,7 @@ func (f *Font) makeTemplateData(opt *WriterOptions) *fontInfo {
 		Copyright:          f.FontInfo.Copyright,
 		CreationDate:       f.CreationDate,
 		Encoding:           f.Encoding,
+		UseStdEncoding:     f.canUseStandardEncoding(),
 		FamilyName:         f.FontInfo.FamilyName,
 		FontMatrix:         fontMatrix,
 		FontName:           f.FontInfo.FontName,
@@ -300,11 +301,31 @@ func (f *Font) encodeCharstrings() map[string]string {
 	return charStrings
 }
 
-func writeEncoding(encoding []string) string {
+// canUseStandardEncoding returns true if the font's encoding can be written
+// as a reference to StandardEncoding without changing the meaning of any code:
+// every code must either carry the standard name, or be unassigned while the
+// standard glyph for this code is not present in the font.
+func (f *Font) canUseStandardEncoding() bool {
+	if !isStandardEncoding(f.Encoding) {
+		return false
+	}
+	for i, s := range f.Encoding {
+		std := psenc.StandardEncoding[i]
+		if s == std {
+			continue
+		}
+		if _, present := f.Glyphs[std]; present {
+			return false
+		}
+	}
+	return true
+}
+
+func writeEncoding(encoding []string, useStdEncoding bool) string {
 	if len(encoding) != 256 {
 		return ""
 	}
-	if isStandardEncoding(encoding) {
+	if useStdEncoding {
 		return "/Encoding StandardEncoding def\n"
 	}
 
@@ -375,7 +396,7 @@ var tmpl = template.Must(template.New("type1").Funcs(template.FuncMap{
 /UnderlineThickness {{.UnderlineThickness}} def
 end def
 /FontName {{.FontName|PN}} def
-{{ .Encoding|E -}}
+{{ E .Encoding .UseStdEncoding -}}
 /PaintType 0 def
 /FontType 1 def
 /FontMatrix {{ .FontMatrix }} def
@@ -454,6 +475,7 @@ type fontInfo struct {
 	Copyright          string
 	CreationDate       time.Time
 	Encoding           []string
+	UseStdEncoding     bool
 	FamilyName         string
 	FontMatrix         [6]float64
 	FontName           string
